@@ -32,6 +32,41 @@ Section Partials.
   Definition render_partials (t : bytes) (ps : list bytes) := rp_loop t ps [].
 End Partials.
 
+(* The same loop over an engine WITH STATE that survives between calls (compiled
+   template set / templatesLoaded, whatever an earlier Render or RenderPartials
+   call left behind, the data object a partial was handed): [renderS] takes the
+   state before the call and returns the state after it with the result. *)
+Section PartialsState.
+  Variable St : Type.
+  Variable renderS : St -> bytes -> St * option bytes.
+
+  Fixpoint rp_loopS (s : St) (t : bytes) (ps : list bytes) (acc : list (bytes * bytes))
+    : St * option (list (bytes * bytes)) :=
+    match ps with
+    | [] => (s, Some acc)
+    | p :: r =>
+      match renderS s (partial_name t p) with
+      | (s', None) => (s', None)
+      | (s', Some b) => rp_loopS s' t r (insert p b acc)
+      end
+    end.
+
+  Definition render_partialsS (s : St) (t : bytes) (ps : list bytes) := rp_loopS s t ps [].
+
+  (* earlier calls on the same engine *)
+  Inductive call :=
+  | CRender (name : bytes)
+  | CPartials (t : bytes) (ps : list bytes).
+
+  Definition do_call (s : St) (c : call) : St :=
+    match c with
+    | CRender n => fst (renderS s n)
+    | CPartials t ps => fst (render_partialsS s t ps)
+    end.
+
+  Definition after (s : St) (h : list call) : St := fold_left do_call h s.
+End PartialsState.
+
 (* maps compared as maps *)
 Definition map_equiv (m m' : list (bytes * bytes)) : Prop :=
   forall k, lookup k m = lookup k m'.
